@@ -65,12 +65,13 @@ theorem events_undecorated (d : Decorated) (L : Str) : events (undecorated d) L 
   have hw : (wholeLabels (undecorated d)).contains L = false := by simp [wholeLabels_undecorated]
   unfold events
   rw [hw, codeLines_undecorated]
-  generalize ((codeLines d).map fun c => ({ code := c.code } : CodeLine)).length = n
-  generalize hone : 1 = i
-  clear hone
-  induction codeLines d generalizing i with
-  | nil => rfl
-  | cons c t ih => simp [eventsFrom, hintEvs, ih]
+  have key : ∀ (cs : List CodeLine) (n i : Nat),
+      eventsFrom L false n i (cs.map fun c => ({ code := c.code } : CodeLine)) = [] := by
+    intro cs n
+    induction cs with
+    | nil => intro i; rfl
+    | cons c t ih => intro i; simp [eventsFrom, hintEvs, ih]
+  exact key _ _ _
 
 /-- The preparation steps leave a hint-free, hygienic text as it is. -/
 theorem prepare_plain (ls : List Str) (hne : ls ≠ [])
